@@ -587,8 +587,63 @@ def bounded_pairs(ctx, b):
                        {"x": repr(x), "y": repr(y), "eq": got, "expected": want}, nontrivial=want or type(x) is type(y))
 
 
+def bounded_histories(ctx, b):
+    """values stay values along a history of uses: hash / compare / print a value, transform it (relativize, fit),
+    and the result still equals - and hashes like - a value built afresh from the same components; the receiver
+    still equals and hashes like its own fresh rebuild"""
+    import copy
+    pct, px = UnitEnum.PERCENT, UnitEnum.PIXEL
+
+    def rebuild(o):
+        if isinstance(o, Layout):
+            return Layout(origin=rebuild(o.origin), extent=rebuild(o.extent), padding=rebuild(o.padding), alignment=rebuild(o.alignment),
+                          webvtt_positioning=o.webvtt_positioning)
+        if isinstance(o, Point):
+            return Point(rebuild(o.x), rebuild(o.y))
+        if isinstance(o, Stretch):
+            return Stretch(rebuild(o.horizontal), rebuild(o.vertical))
+        if isinstance(o, Padding):
+            return Padding(rebuild(o.before), rebuild(o.after), rebuild(o.start), rebuild(o.end))
+        if isinstance(o, Alignment):
+            return Alignment(o.horizontal, o.vertical)
+        if isinstance(o, Size):
+            return Size(o.value, o.unit)
+        return o
+    layouts = [Layout(origin=Point(Size(x, u), Size(y, u)), extent=e, padding=pd, alignment=al)
+               for u in (pct, px) for x, y in ((10, 10), (50, 80), (0, 0))
+               for e in (None, Stretch(Size(95, u), Size(95, u)), Stretch(Size(20, u), Size(10, u)))
+               for pd in (None, Padding(Size(1, u), Size(2, u), Size(3, u), Size(4, u)))
+               for al in (None, Alignment(HorizontalAlignmentEnum.LEFT, VerticalAlignmentEnum.TOP))]
+    uses = {"hash": lambda v: hash(v), "eq": lambda v: v == copy.deepcopy(v), "repr": lambda v: repr(v),
+            "set": lambda v: {v: 1}[v], "none": lambda v: None}
+    steps = {"fit": lambda v: v.fit_to_screen(), "relativize": lambda v: v.as_percentage_of(640, 360),
+             "relativize+fit": lambda v: v.as_percentage_of(640, 360).fit_to_screen(), "fit twice": lambda v: v.fit_to_screen().fit_to_screen()}
+    for li, L in enumerate(layouts):
+        for un, use in uses.items():
+            for sn, step in steps.items():
+                def one(L=L, use=use, step=step):
+                    v = copy.deepcopy(L)
+                    before = rebuild(v)
+                    use(v)
+                    try:
+                        r = step(v)
+                    except Exception as e:
+                        if type(e).__name__ in ("RelativizationError", "ValueError"):
+                            return True, None
+                        raise
+                    use(v)
+                    fresh = rebuild(r)
+                    ok = r == fresh and hash(r) == hash(fresh) and v == before and hash(v) == hash(before) and len({r, fresh}) == 1
+                    return ok, {"receiver": repr(L), "result": repr(r), "result_equals_fresh_rebuild": r == fresh,
+                                "hashes": (hash(r), hash(fresh)), "receiver_unchanged": v == before}
+                b.guard(("history", li, un, sn), one, sample={"layout": repr(L), "use_before": un, "transformation": sn}, nontrivial=True)
+
+
 def run(ctx):
     P = ctx.prove
+    ctx.bounded("histories", "layouts (2 units x 3 origins x 3 extents x with / without padding and alignment) that are hashed / "
+                "compared / printed / used as a dict key and then relativized and / or fitted: the result equals and hashes like "
+                "a value rebuilt from its components, the receiver like its own rebuild", lambda b: bounded_histories(ctx, b))
     for K in (Size,):
         P(f"geometry.{K.__name__}.__eq__", eq_contract(K), functions=[K.__eq__])
         P(f"geometry.{K.__name__}.__hash__", hash_contract(K), functions=[K.__hash__])
